@@ -64,6 +64,23 @@ def _case(draw):
         smap = {name: f"S{ks[i]}" for i, name in enumerate(gen.SPECIES_NAMES[:10])}
         omap = {leaf: smap[sp] + leaf[len(sp):] for leaf, sp in case["leaf_object_species"].items()}
         case = gen.rename_case(case, omap, smap)
+    elif gen.chance(draw, 1, 4):
+        # species names that are prefixes of one another (s1, s10, s1_x, ...); or, when the leaf assignment stays
+        # explicit, names that differ only in case
+        case["_spelling"] = draw(st.sampled_from(["prefix-nested", "case-twins"]))
+        case = gen.respell_species(case, case["_spelling"])
+    if gen.chance(draw, 1, 4):
+        # the <id> part of a leaf name is any text, not only digits
+        ids = ["a", "x_7", "1b", "x9", "x_y_1", "07", "Z", "0x1"]  # an id may contain underscores itself
+        omap = {leaf: leaf.rsplit("_", 1)[0] + "_" + ids[i % 8] + (str(i) if i >= 8 else "") for i, leaf in enumerate(case["leaf_object_species"])}
+        if len(set(omap.values())) == len(omap):
+            keep = {k: v for k, v in case.items() if k.startswith("_")}
+            case = gen.rename_case(case, omap, {})
+            case.update(keep)
+    if gen.chance(draw, 1, 3) and "leaf_syntenies" in case:
+        fams0 = sorted({f for v in case["leaf_syntenies"].values() for f in v})
+        if all(f[:1] == "g" and f[1:].isdigit() for f in fams0):
+            case = gen.rename_families(case, gen.alt_family_map(fams0, salt=len(case["object_tree"])))
     sleaves = sorted(set(case["leaf_object_species"].values()))
     top = 15 if big else 4
     for key, prefix in (("object_tree", "O"), ("species_tree", "S")):
@@ -91,8 +108,12 @@ def _case(draw):
             used.add(name)
             t.name[n] = name
         case[key] = t.to_newick()
-    if draw(st.booleans()):
-        del case["leaf_object_species"]
+    if draw(st.booleans()) and case.get("_spelling") != "case-twins":
+        from ..plain import infer_species
+
+        sp_names = [parse_newick(case["species_tree"]).name[n] for n in parse_newick(case["species_tree"]).nodes()]
+        if infer_species(list(case["leaf_object_species"]), sp_names) == case["leaf_object_species"]:
+            del case["leaf_object_species"]
     if gen.chance(draw, 1, 10):
         del case["leaf_syntenies"]
     case["_algo"] = algo
@@ -225,7 +246,16 @@ def check(case):
             written = {k: (INF if v == INF else v) for k, v in ocase.get("costs", {}).items()}
             if written != {k: v for k, v in base["costs"].items()}:
                 raise Violation("cli.costs-of-written-solution!=cost-options", observed=written, expected=base["costs"])
-            oinst = Instance(ocase, label=False)
+            # every object leaf sits in the species the input gives it (explicitly, or through the documented
+            # <species>_<id> naming rule when the assignment is left out)
+            if ocase.get("leaf_object_species") != inst.los:
+                raise Violation("cli.leaf-assignment-of-written-solution!=input", observed=ocase.get("leaf_object_species"), expected=inst.los)
+            try:
+                oinst = Instance(ocase, label=False)
+            except (KeyError, ValueError, IndexError) as exc:
+                # the written input is not a complete input in the documented format (e.g. a leaf without species)
+                raise Violation("cli.written-input-incomplete", observed=repr(exc)[:200], expected="complete input in every written solution",
+                                extra={"input": str(ocase)[:400]})
             m = data["object_species"]
             why = oinst.mapping_valid(m)
             if why:
